@@ -67,12 +67,15 @@ def pubrec_keeps_slot(F, R, ver):
     ack = F.adts['%s::shared::Ack' % ver]
     ridx = [i for i, v in enumerate(ack['variants']) if v['name'] == 'Receive'][0]
     edges = [(s_, t_) for s_, t_, lab in c06.discr_bool_edges(b, 2) if lab == 'pkt#%d' % ridx]
+    # a `matches!` first branches on the discriminant to set a bool and then on the bool: keep the deciding (last) edge
+    edges = [(s_, t_) for s_, t_ in edges if not any((s2, t2) != (s_, t_) and s2 in b.reachable(t_) for s2, t2 in edges)]
     requeue = {x[0] for x in calls_on_field(b, r'VecDeque::<T, A>::push_back$', 'inflight')}
     oks = [bi for bi, j, s in b.assigns() if s['lhs']['l'] == 0 and s['rv']['k'] == 'agg' and s['rv'].get('variant') == 'Ok']
-    in_rec = [x for x in oks if any(edge_dominates(b, s_, t_, x) for s_, t_ in edges)]
+    # Ok exits reachable from the PUBREC edge (the `Ok(())` may be shared by all arms after the match)
+    in_rec = [x for x in oks if any(x == t_ or x in b.reachable(t_) for s_, t_ in edges)]
     R.ob('C05.single-enqueue', '%s|pkt_ack_inner|PUBREC-branch-found' % ver, bool(edges) and bool(in_rec), 'could not locate the PUBREC branch (edges %d, Ok exits %d)' % (len(edges), len(in_rec)))
     for x in in_rec:
-        ok = any(b.must_pass(requeue, x, start=t_) for s_, t_ in edges)
+        ok = all(b.must_pass(requeue, x, start=t_) for s_, t_ in edges if x == t_ or x in b.reachable(t_))
         R.ob('C05.single-enqueue', '%s|pkt_ack_inner|PUBREC=>entry-stays-outstanding' % ver, ok,
              'the PUBREC branch can finish without re-queueing the exchange (e.g. when the sender future was dropped): its window slot is freed at PUBREC although PUBREL/PUBCOMP are still outstanding, so more than `cap` exchanges are open', b.loc(x))
 
